@@ -213,11 +213,21 @@ class MonitoredList(MonitoredContainer, list):
             # the assigned iterable may be a one-shot one: it is recorded and stored from the same materialised values
             value = list(value)
             start, stop, step = idx.indices(len(self))
+            if step != 1 and len(value) != len(range(start, stop, step)):
+                # what the list itself would say, before anything is recorded
+                raise ValueError(
+                    f"attempt to assign sequence of size {len(value)} to extended slice of size "
+                    f"{len(range(start, stop, step))}"
+                )
             if step < 0 and stop < 0:
                 stop = None  # down to and including the first element
             idx = slice(start, stop, step)
-        elif idx < 0:
-            idx += len(self)
+        else:
+            if idx < 0:
+                idx += len(self)
+            if not 0 <= idx < len(self):
+                # what the list itself would say, before anything is recorded
+                raise IndexError("list assignment index out of range")
         value = self._on_add(value)
         super().__setitem__(idx, value)
 
